@@ -53,6 +53,57 @@ Theorem C08_keys_interval vs t : Sorted N.le (0 :: map fst (eff vs 0)) ->
   valid_keys_at vs t = spec (eff vs 0) t [].
 Proof. intros S. unfold valid_keys_at. rewrite vk_go_eff. now apply (go_spec _ _ _ 0). Qed.
 
+(* the clock part of Identity.Validate, for the one clock that matters here: once a version records the clock every
+   later version records it too, with a value that does not decrease *)
+Fixpoint id_valid (vs : list version) (last : option N) : bool :=
+  match vs with
+  | [] => true
+  | (ot, _) :: rest =>
+      match last, ot with
+      | Some l, Some x => N.leb l x && id_valid rest (Some x)
+      | Some _, None => false
+      | None, _ => id_valid rest ot
+      end
+  end.
+Lemma id_valid_sorted vs : forall lo last, match lo with Some l => l = last | None => last = 0 end ->
+  id_valid vs lo = true -> Sorted N.le (last :: map fst (eff vs last)).
+Proof. induction vs as [|[ot ks] rest IH]; intros lo last Hl V; cbn; [repeat constructor|].
+  destruct lo as [l|]; cbn in V.
+  - subst last. destruct ot as [x|]; [|discriminate]. apply andb_true_iff in V as [Hle V]. apply N.leb_le in Hle.
+    constructor; [exact (IH (Some x) x eq_refl V)|constructor; exact Hle].
+  - subst last. destruct ot as [x|].
+    + constructor; [exact (IH (Some x) x eq_refl V)|constructor; apply N.le_0_l].
+    + constructor; [exact (IH None 0 eq_refl V)|constructor; apply N.le_refl]. Qed.
+Theorem C08_keys_interval_validated vs t : id_valid vs None = true -> valid_keys_at vs t = spec (eff vs 0) t [].
+Proof. intros V. apply C08_keys_interval. exact (id_valid_sorted vs None 0 eq_refl V). Qed.
+
+(* readable corollaries of the interval theorem *)
+Lemma spec_app l1 l2 t d : spec (l1 ++ l2) t d = spec l2 t (spec l1 t d).
+Proof. unfold spec. apply fold_left_app. Qed.
+
+Lemma spec_all_later l t d : Forall (fun p => t < fst p) l -> spec l t d = d.
+Proof. unfold spec. revert d. induction l as [|p l IH]; intros d F; cbn; [reflexivity|]. inversion F; subst.
+  assert (N.leb (fst p) t = false) as -> by (apply N.leb_gt; assumption). now apply IH. Qed.
+
+(* the keys in force at t are those of the LAST version whose time is <= t ... *)
+Theorem C08_keys_last vs t l1 r ks l2 : Sorted N.le (0 :: map fst (eff vs 0)) ->
+  eff vs 0 = l1 ++ (r, ks) :: l2 -> r <= t -> Forall (fun p => t < fst p) l2 -> valid_keys_at vs t = ks.
+Proof. intros S E Hr F. rewrite (C08_keys_interval vs t S), E, spec_app. cbn [spec fold_left]. change (fold_left _ l2 ?d) with (spec l2 t d).
+  cbn [fst snd]. assert (N.leb r t = true) as -> by (apply N.leb_le; exact Hr). now apply spec_all_later. Qed.
+
+(* ... and there is none before the first version's time (no ordering needed: the loop stops at once) *)
+Theorem C08_keys_none_before_first vs t r ks l : eff vs 0 = (r, ks) :: l -> t < r -> valid_keys_at vs t = [].
+Proof. intros E Hlt. unfold valid_keys_at. rewrite vk_go_eff, E. assert (N.ltb t r = true) as -> by (apply N.ltb_lt; exact Hlt). reflexivity. Qed.
+
+(* when no version is more recent than t the loop runs to the end: the keys of the last version *)
+Definition last_keys (vs : list version) : list key := fold_left (fun _ v => snd v) vs [].
+Lemma vk_go_all_le vs : forall last t res, Forall (fun p => fst p <= t) (eff vs last) ->
+  vk_go vs last t res = fold_left (fun _ v => snd v) vs res.
+Proof. induction vs as [|[ot ks] rest IH]; intros last t res F; cbn; [reflexivity|]. cbn in F. inversion F as [|? ? H1 H2]; subst. cbn in H1.
+  assert (N.ltb t (match ot with Some x => x | None => last end) = false) as -> by (apply N.ltb_ge; exact H1). now apply IH. Qed.
+Lemma keys_after_all vs t : Forall (fun p => fst p <= t) (eff vs 0) -> valid_keys_at vs t = last_keys vs.
+Proof. intros F. unfold valid_keys_at, last_keys. now apply vk_go_all_le. Qed.
+
 (* acceptance rule of readOperationPack, with OpenPGP as an oracle *)
 Variable sig payload : Type.
 Variable sig_ok : key -> payload -> sig -> bool.
@@ -70,9 +121,77 @@ Theorem C08_reject_foreign vs t p sg : valid_keys_at vs t <> [] ->
   (forall k, In k (valid_keys_at vs t) -> sig_ok k p sg = false) -> accept vs t p (Some sg) = false.
 Proof. unfold accept. destruct (valid_keys_at vs t) as [|k ks] eqn:E; [congruence|]. intros _ H.
   apply not_true_is_false. intros Hex. apply existsb_exists in Hex as (k' & Hin & Hok). rewrite H in Hok; [discriminate|exact Hin]. Qed.
-Theorem C08_accept_signed vs t p sg k : In k (valid_keys_at vs t) -> sig_ok k p sg = true -> accept vs t p (Some sg) = true.
+Theorem C08_accept_signed_ok vs t p sg k : In k (valid_keys_at vs t) -> sig_ok k p sg = true -> accept vs t p (Some sg) = true.
 Proof. unfold accept. destruct (valid_keys_at vs t) as [|k0 ks] eqn:E; [reflexivity|]. intros Hin Hok.
   apply existsb_exists. exists k. split; auto. Qed.
+
+(* OpenPGP as assumed: signatures are produced by [sign]; a signature made with key k' over payload p'
+   verifies under k' over p' (correctness) and under no other key and over no other payload (unforgeability,
+   restricted to honestly produced signatures: the only ones the harness can exhibit) *)
+Variable sign : key -> payload -> sig.
+Hypothesis sign_correct : forall k p, sig_ok k p (sign k p) = true.
+Hypothesis sign_unforgeable : forall k p k' p', sig_ok k p (sign k' p') = true -> k = k' /\ p = p'.
+
+Theorem C08_reject vs t p s : valid_keys_at vs t <> [] ->
+  (s = None \/ exists k' p', s = Some (sign k' p') /\ (~ In k' (valid_keys_at vs t) \/ p' <> p)) ->
+  accept vs t p s = false.
+Proof. intros NE [->|(k' & p' & -> & Hbad)]; [now apply C08_reject_unsigned|]. apply C08_reject_foreign; [exact NE|].
+  intros k Hin. apply not_true_is_false. intros Hok. apply sign_unforgeable in Hok as [-> ->]. destruct Hbad as [Hn|Hn]; [exact (Hn Hin)|now apply Hn]. Qed.
+
+Theorem C08_accept_signed vs t p k : In k (valid_keys_at vs t) -> accept vs t p (Some (sign k p)) = true.
+Proof. intros Hin. apply (C08_accept_signed_ok vs t p (sign k p) k Hin). apply sign_correct. Qed.
+
+(* both directions at once, for a signature made with k' over p' *)
+Theorem C08_accept_iff vs t p k' p' : accept vs t p (Some (sign k' p')) = true <->
+  valid_keys_at vs t = [] \/ (In k' (valid_keys_at vs t) /\ p' = p).
+Proof. split.
+  - intros A. destruct (valid_keys_at vs t) as [|k0 ks] eqn:E; [now left|right].
+    unfold accept in A. rewrite E in A. apply existsb_exists in A as (k & Hin & Hok). apply sign_unforgeable in Hok as [-> ->]. now split.
+  - intros [E|[Hin ->]]; [now apply C08_accept_unsigned|now apply C08_accept_signed]. Qed.
+
+(* the writer: operationPack.Write signs with Author.SigningKey = the first key of the LAST version whose private
+   part is available (in memory or in the keyring); [have] says which private parts are available.
+   [write_pinned]: the snapshot's writer stores an unsigned commit when there is none.
+   [write]: the repaired writer refuses to store a commit which the reader would reject for want of a signature. *)
+Definition signing_key (have : key -> bool) (vs : list version) : option key := find have (last_keys vs).
+Definition write_pinned (vs : list version) (have : key -> bool) (p : payload) : option (option sig) :=
+  Some (match signing_key have vs with Some k => Some (sign k p) | None => None end).
+Definition write (vs : list version) (t : N) (have : key -> bool) (p : payload) : option (option sig) :=
+  match signing_key have vs with
+  | Some k => Some (Some (sign k p))
+  | None => match valid_keys_at vs t with [] => Some None | _ => None end
+  end.
+
+(* whatever the repaired writer stores at a time not earlier than any version of its author is accepted back *)
+Theorem C08_written_accepted vs t have p s : Forall (fun q => fst q <= t) (eff vs 0) ->
+  write vs t have p = Some s -> accept vs t p s = true.
+Proof. intros F W. unfold write, signing_key in W. destruct (find have (last_keys vs)) as [k|] eqn:Fk.
+  - injection W as <-. apply C08_accept_signed. rewrite (keys_after_all vs t F). now apply find_some in Fk.
+  - destruct (valid_keys_at vs t) eqn:E; [|discriminate]. injection W as <-. now apply C08_accept_unsigned. Qed.
+
+(* row 20 of the defect table, as a statement about the snapshot's writer: with keys in force and no private key
+   at hand it stores a commit which the reader rejects *)
+Theorem C08_pinned_writer_unreadable vs t have p : valid_keys_at vs t <> [] -> signing_key have vs = None ->
+  exists s, write_pinned vs have p = Some s /\ accept vs t p s = false.
+Proof. intros NE Sk. exists None. unfold write_pinned. rewrite Sk. split; [reflexivity|now apply C08_reject_unsigned]. Qed.
 End Sig.
 Print Assumptions C08_keys_interval.
-Print Assumptions C08_reject_foreign.
+Print Assumptions C08_reject.
+
+Arguments valid_keys_at {key}.
+Arguments eff {key}.
+Arguments id_valid {key}.
+Arguments spec {key}.
+Arguments last_keys {key}.
+Arguments signing_key {key}.
+Arguments accept {key sig payload}.
+Arguments write {key sig payload}.
+Arguments write_pinned {key sig payload}.
+
+(* an ideal signature scheme (a signature names its key and its payload): shows the hypotheses on the oracle are
+   satisfiable (P_C08.v) and instantiates the model in the correspondence check (K_C08.v) *)
+Definition ideal_ok (k p : N) (s : N * N) : bool := N.eqb k (fst s) && N.eqb p (snd s).
+Definition ideal_sign (k p : N) : N * N := (k, p).
+
+(* example history used in P_C08.v *)
+Definition ex_history : list (version N) := [(None, []); (Some 3, [1]); (Some 5, [2]); (Some 7, [])].
